@@ -8,7 +8,66 @@ released/aborted, sent/received PDU notifications match the byte-level notificat
 import random
 import warnings
 
+from common import MachineryError
 from pair_common import judge, run_scenarios, scenarios
+
+
+REPO_TEST_MODULES = ["pynetdicom/tests/test_assoc.py", "pynetdicom/tests/test_ae.py", "pynetdicom/tests/test_service_verification.py",
+                     "pynetdicom/tests/test_service_storage.py", "pynetdicom/tests/test_events.py"]
+# clauses that hold for any history whatever the test does to the objects; the others assume an undisturbed association
+# (several tests close sockets, set states or feed queues by hand) and are reported as drift for these histories
+ROBUST = {"C27_FsmTable", "C27_OpenOnce", "C27_EstablishedOnce"}
+
+
+def repo_test_histories(ctx):
+    """C2S over the repository's own tests: they are run unchanged with the recorder installed (pytest plugin
+    harness/recorder_plugin.py) and every association's notification history is validated by Trace_Notify."""
+    import json
+    import os
+    import subprocess
+    from common import REPO, VERIF
+    from pair_common import history
+    from trace import validate_traces
+
+    out = os.path.join(ctx.work, "repo_histories.ndjson")
+    env = dict(os.environ, PYTHONPATH=os.path.join(VERIF, "harness") + os.pathsep + REPO, VERIF_REC_OUT=out, PYTEST_XDIST_WORKER="verifc27")
+    env.pop("PYNETDICOM_VERIF", None)
+    p = subprocess.run(["/venv/bin/python", "-m", "pytest", "-q", "-p", "recorder_plugin", "-p", "no:cacheprovider", "--timeout=600", "-x", "--deselect",
+                        "pynetdicom/tests/test_ae.py::TestAEGoodAssociation::test_association_timeouts", "--deselect",
+                        "pynetdicom/tests/test_ae.py::TestAEGoodAssociation::test_connection_timeout"] + REPO_TEST_MODULES,
+                       cwd=REPO, env=env, capture_output=True, text=True, timeout=3000)
+    tail = (p.stdout or "").strip().splitlines()[-1:] or ["?"]
+    ctx.cov["repo_tests_run"] = tail[0]
+    if not os.path.exists(out):
+        raise MachineryError(f"the recorder plugin wrote no histories: {tail[0]} {(p.stderr or '')[-300:]}")
+    recs = [json.loads(l) for l in open(out) if l.strip()]
+    tr, back = [], {}
+    for r in recs:
+        h = history(r["events"])
+        if not h:
+            continue
+        wired = any(e["k"] == "open" for e in h)
+        rec = {"id": len(tr) + 1, "h": h, "wired": wired, "ended": any(e["k"] == "close" for e in h), "peer_ended": False, "peer_released": False, "peer_recv": [], "peer_sent": []}
+        back[rec["id"]] = r
+        tr.append(rec)
+    if len(tr) < 200:
+        raise MachineryError(f"only {len(tr)} histories recorded from the repository's tests")
+    hv = validate_traces(ctx, "Trace_Notify", tr, name="repo_notify", timeout=3000)
+    drift = {}
+    for t in tr:
+        v = hv[t["id"]][0]
+        ctx.traces += 1
+        if v == "ok":
+            continue
+        r = back[t["id"]]
+        evs = [e["k"] if e["k"] != "fsm" else f"Sta{e['a']}+Evt{e['b']}" for e in t["h"]]
+        if v in ROBUST:
+            ctx.violation({"clause": v, "source": "repository tests", "test": r["test"].split("::")[0]},
+                          f"{v}: history of a {r['mode']} association recorded while running {r['test']}: {evs[-30:]}", {"test": r["test"]})
+        else:
+            drift[v] = drift.get(v, 0) + 1
+    ctx.cov["repo_test_histories"] = len(tr)
+    ctx.cov["repo_test_histories_disturbed_by_the_test"] = drift
 
 
 def run(ctx):
@@ -25,6 +84,8 @@ def run(ctx):
     ctx.cov["notifications"] = sum(len(h["h"]) for h in hist)
     if hist:
         ctx.sample({"history_tail": [e["k"] if e["k"] != "fsm" else f"Sta{e['a']}+Evt{e['b']}" for e in hist[0]["h"]][-12:]})
+    if thorough:
+        repo_test_histories(ctx)
     ctx.assume("histories are those of the lifecycle scenarios of Scenario.tla on loopback with timeouts 0.8 s",
                "the order of notifications is the order in which pynetdicom.events.trigger was entered (sequence number taken under the recorder lock)")
     return ctx.finish(rule="user scripts of Scenario.tla, sampled; one history per association (two per scenario); non-trivial = anything but a plain release")
